@@ -270,12 +270,27 @@ def enum_real_depsets(seed):
         rdepend = DepSet.parse("a/h[st(+)=,!s2(-)=] y? ( a/i )", atom)
         pdepend = DepSet.parse("|| ( x? ( a/j ) a/k[s3(+)] ) !y? ( a/l[x(-)?] )", atom)
         plain = ("p",)
+        license = DepSet.parse("x? ( GPL-2 ) || ( MIT y? ( BSD ) )", str)
+        iuse = FLAGS
     ev = klass.alias_method("evaluate_depset")
-    W = make_wrapper(None, "use", attributes_to_wrap={"depend": ev, "rdepend": ev, "pdepend": ev})
+    W = make_wrapper(None, "use", attributes_to_wrap={"depend": ev, "rdepend": ev, "pdepend": ev, "license": ev})
+    # ... and the wrapper class the configured repository itself builds (its own evaluators for the wrapped attributes, one tree for all trials,
+    # so whatever it remembers between packages is there)
+    import types
+    from pkgcore.ebuild.repository import ConfiguredTree
+    start = {"use": ()}
+    fake_domain = types.SimpleNamespace(get_package_use_unconfigured=lambda pkg: (frozenset(), frozenset(start["use"]), frozenset()),
+                                        profile=types.SimpleNamespace(iuse_effective=frozenset()))
+    ctree = ConfiguredTree(types.SimpleNamespace(), fake_domain, {"USE": (), "CHOST": "x86_64-pc-linux-gnu"})
+
+    def W_tree(raw, initial_settings, unchangable_settings):
+        start["use"] = tuple(initial_settings)
+        return ctree.package_class(raw)
     cases, fails = 0, []
     ops = ["read"] + [f"en {f}" for f in FLAGS] + [f"dis {f}" for f in FLAGS] + ["rb", "rb", "commit", "en st s2", "dis x y"]
-    for trial in range(500):
-        w = W(Raw(), initial_settings=rnd.sample(FLAGS, rnd.randint(0, 4)), unchangable_settings=["locked"])
+    for trial in range(700):
+        via_tree = trial % 2 == 1
+        w = (W_tree if via_tree else W)(Raw(), initial_settings=rnd.sample(FLAGS, rnd.randint(0, 4)), unchangable_settings=["locked"])
         marks = [w.changes_count()]
         hist = []
         for _ in range(rnd.randint(2, 8)):
@@ -296,13 +311,13 @@ def enum_real_depsets(seed):
             elif op != "read":
                 (w.request_enable if kind == "en" else w.request_disable)("use", *flags)
                 marks.append(w.changes_count())
-            for attr in (("depend", "rdepend", "pdepend") if rnd.random() < .7 else ("rdepend",)):
+            for attr in (("depend", "rdepend", "pdepend", "license") if rnd.random() < .7 else ("rdepend",)):
                 cases += 1
                 got, want = str(getattr(w, attr)), str(getattr(Raw, attr).evaluate_depset(w.use))
                 if got != want and len(fails) < 4:
-                    fails.append({"model": {"history": list(hist), "attribute": attr, "use": sorted(w.use)},
-                                  "detail": f"history {hist}: {attr} reads {got!r} but the raw attribute under USE {sorted(w.use)} is {want!r}"})
-    return {"name": "C14.real_depsets.bounded_enumeration", "bound": "500 random histories of <= 8 enable/disable/rollback/commit/read steps over 6 flags on three real dependency sets "
+                    fails.append({"model": {"history": list(hist), "attribute": attr, "use": sorted(w.use), "wrapper": "ConfiguredTree.package_class" if via_tree else "make_wrapper"},
+                                  "detail": f"[{'ConfiguredTree' if via_tree else 'make_wrapper'}] history {hist}: {attr} reads {got!r} but the raw attribute under USE {sorted(w.use)} is {want!r}"})
+    return {"name": "C14.real_depsets.bounded_enumeration", "bound": "700 random histories of <= 8 enable/disable/rollback/commit/read steps over 6 flags on three real dependency sets and a LICENSE, half of them on packages wrapped by a real ConfiguredTree (one tree for all) "
             "(plain conditionals, [f?] [f=] [!f?] [!f=] with and without (+)/(-) defaults, ||), attributes read after every step (sometimes only one of them, so that stale entries survive)",
             "cases": cases, "failures": fails}
 
@@ -313,7 +328,7 @@ def tasks():
         Task("C14._getattr_wrapped", t_getattr, fns[-1:]),
         Task("C14.requests", t_request, fns[:2], enumerate=enum_histories),
         Task("C14.rollback_commit", t_rollback_commit, fns[2:4]),
-        Task("C14.real_depsets", None, fns, enumerate=enum_real_depsets),
+        Task("C14.real_depsets", None, fns + [("src/pkgcore/repository/configured.py", "tree.package_class"), ("src/pkgcore/ebuild/repository.py", "ConfiguredTree._get_pkg_kwds")], enumerate=enum_real_depsets),
     ]
 
 
